@@ -608,24 +608,19 @@ func (exec *Executor) executeDecimalMethod(
 		}
 	}
 
-	// Round to the scale.
-	ratio := math.Pow10(scale)
-	rounded := math.Round(num*ratio) / ratio
-
-	// Count the digits before the decimal point.
-	numStr := strconv.FormatFloat(rounded, 'f', -1, 64)
-	count := 0
-	for _, ch := range numStr {
-		if ch == '.' {
-			break
-		}
-		if '1' <= ch && ch <= '9' {
-			count++
-		}
+	// Round to the scale. A scale that scales num beyond the range of float64
+	// is too fine to change it, and one that scales it down to nothing rounds
+	// it to zero.
+	rounded := num
+	if ratio := math.Pow10(scale); ratio == 0 {
+		rounded = 0
+	} else if scaled := num * ratio; !math.IsInf(ratio, 0) && !math.IsInf(scaled, 0) {
+		rounded = math.Round(scaled) / ratio
 	}
 
-	// Make sure it's got no more than precision digits.
-	if count > 0 && count > precision-scale {
+	// Make sure it's got no more than precision-scale digits before the
+	// decimal point.
+	if rounded != 0 && math.Abs(rounded) >= math.Pow10(precision-scale) {
 		return 0, fmt.Errorf(
 			`%w: argument "%v" of jsonpath item method %v is invalid for type %v`,
 			ErrVerbose, value, op, "numeric",
